@@ -136,6 +136,124 @@ def op4class():
     return OP4X
 
 
+def op4class_ascii():
+    """OP4 subclass for the ASCII readers on the symbolic line stream (vsym/linestream.py): `int`/`float` of the module
+    resolve card fields, `''.join` of card pieces keeps the field map (AST hook 'join' in _get_ascii_block)"""
+    if "acls" in _C:
+        return _C["acls"]
+    import pyyeti.nastran.op4 as m
+    from vsym import linestream as L
+    g = dict(m.__dict__)
+
+    class NPA(NPO):
+        def zeros(self, shape, dtype=float, order="C"):
+            return NPO.zeros(self, shape, float if dtype is L.sx_float else dtype, order=order)
+        empty = zeros
+    g.update(np=NPA(), open=sx_open, int=L.sx_int, float=L.sx_float, _sx_join=L.sx_join)
+
+    class OP4A(m.OP4):
+        pass
+    for nm, f in list(vars(m.OP4).items()):
+        static = isinstance(f, staticmethod)
+        ff = f.__func__ if static else f
+        if not isinstance(ff, types.FunctionType):
+            continue
+        if nm == "_get_ascii_block":
+            nf = astload.load(ff, hooks=("join",), globs=g)
+        else:
+            nf = types.FunctionType(ff.__code__, g, nm, ff.__defaults__, ff.__closure__)
+            nf.__kwdefaults__ = ff.__kwdefaults__
+        setattr(OP4A, nm, staticmethod(nf) if static else nf)
+    g["OP4"] = OP4A
+    OP4A._sparse_matrix = staticmethod(lambda rows, cols, X: ("coo", rows, cols, X))
+    _C["acls"] = OP4A
+    return OP4A
+
+
+# ---------------------------------------------------------------------------
+# independent encoder of the ASCII OUTPUT4 layout
+#
+#   line 1      : NCOL NROW NF NTYPE (4I8), NAME (A8), then the FORTRAN format of the numbers, e.g. 1P,3E23.16
+#                 (NROW < 0 flags BIGMAT; files of 65536 rows or more are BIGMAT whatever the sign)
+#   per non-null column: ICOL IROW NW (3I8), then
+#       dense   IROW > 0 : NW numbers (in ASCII dense columns NW counts numbers, not words: compared with
+#                          pyyeti/tests/nastran_op4_data/double_dense_ascii.op4), `perline` to a line, each `numlen` wide
+#       sparse  IROW = 0 : strings; non-BIGMAT: one line IS = IROW + 65536*(L+1), then L/wper numbers
+#                                    BIGMAT    : one line L+1, IROW (2I8), then L/wper numbers
+#   last        : NCOL+1, 1, 1 (3I8) and a line with one number
+#   wper = words per number: 1 for single precision types (1, 3), 2 for double (2, 4); complex = 2 numbers
+
+def encode_ascii(mats, layout, perline, numlen, dform=False, fmt=True, posnr=False):
+    """mats as for encode_binary.  Returns the list of ALine."""
+    from vsym import linestream as L
+    lines = []
+    mark = "D" if dform else "E"
+
+    def numlines(nums):
+        for a in range(0, len(nums), perline):
+            lines.append(L.ALine.build([("n", numlen, (x, mark)) for x in nums[a:a + perline]]))
+    for mt in mats:
+        cplx = mt["mtype"] in (3, 4)
+        wper = 1 if mt["mtype"] in (1, 3) else 2
+        nrow = mt["rows"] if (layout != "bigmat" or posnr) else -mt["rows"]
+        head = [("i", 8, mt["cols"]), ("i", 8, nrow), ("i", 8, mt["form"]), ("i", 8, mt["mtype"]), ("t", 8, mt["name"].upper().ljust(8))]
+        if fmt:
+            head.append(("t", 12, "1P,%d%s%d.%d" % (perline, mark, numlen, numlen - 7)))
+        lines.append(L.ALine.build(head))
+        for c in sorted(mt["columns"]):
+            strings = mt["columns"][c]
+            if not strings:
+                continue
+            if layout == "dense":
+                r0, vals = strings[0]
+                nums = [x for v in vals for x in (v if cplx else (v,))]
+                lines.append(L.ALine.build([("i", 8, c + 1), ("i", 8, r0 + 1), ("i", 8, len(nums))]))
+                numlines(nums)
+                continue
+            per = [[x for v in vals for x in (v if cplx else (v,))] for _, vals in strings]
+            nw = sum(len(n_) * wper + (2 if layout == "bigmat" else 1) for n_ in per)
+            lines.append(L.ALine.build([("i", 8, c + 1), ("i", 8, 0), ("i", 8, nw)]))
+            for (r0, _), nums in zip(strings, per):
+                Lw = len(nums) * wper
+                if layout == "bigmat":
+                    lines.append(L.ALine.build([("i", 8, Lw + 1), ("i", 8, r0 + 1)]))
+                else:
+                    lines.append(L.ALine.build([("i", 8, (r0 + 1) + 65536 * (Lw + 1))]))
+                numlines(nums)
+        lines.append(L.ALine.build([("i", 8, mt["cols"] + 1), ("i", 8, 1), ("i", 8, 1)]))
+        numlines([R.Tok("last")])
+    return lines
+
+
+def ascii_text(lines, tokval, numlen, dform):
+    """the physical text of a fully concrete line list (replay)"""
+    out = []
+    for l in lines:
+        t = list(str(l))
+        for a, b, kind, val in l.fields:
+            if kind == "i":
+                t[a:b] = str(int(val)).rjust(b - a)
+            else:
+                x = ("%%%d.%dE" % (numlen, numlen - 7)) % tokval(val)
+                t[a:b] = x.replace("E", "D") if dform else x
+        out.append("".join(t))
+    return "".join(out)
+
+
+def new_reader_ascii(lines):
+    from vsym import linestream as L
+    cls = op4class_ascii()
+    o = cls()
+    fh = [None]
+
+    def op(name, mode):
+        fh[0] = L.AFile(lines, mode)
+        return fh[0]
+    _OPEN[0] = op
+    o._op4open_read("<stream>")
+    return o, fh[0]
+
+
 # ---------------------------------------------------------------------------
 # independent encoder of the binary OUTPUT4 layout
 #
